@@ -334,6 +334,45 @@ var specC15 = &worldSpec{
 
 func TestC15(t *testing.T) { runWorldSpec(t, withLevel(specC15)) }
 
+// ---------------------------------------------------------------- C10 (a) export/import fidelity
+var specC10 = &worldSpec{
+	Prop: "C10",
+	Profile: &Profile{MinSteps: 12, MaxSteps: 45,
+		W:        weights(map[string]int{"hop": 10, "save": 22, "prune": 3, "lvfo": 1, "dvf": 1, "setnil": 0, "reopen": 4}),
+		Backends: []string{"mem", "mem", "prefix"}},
+	Obs:  Observers{Reads: true, Hash: true, Proofs: true, Audit: true},
+	Rule: "(a) history of 12-45 steps with export/import hops: any retained version (empty tree, single leaf, root inherited from an earlier version) is exported through Exporter or CompressExporter->CompressImporter; the plain stream must equal the reference post-order (key,value,version,height) sequence exactly; the imported store (fresh handle) must have the reference hash, contents and proofs, only the imported version visible, only reachable nodes stored, and all later commits must return the reference hashes. (b) see TestC10Hostile/TestC10Big. non-trivial (a) = a hop of a version with >=3 nodes of >=2 node versions followed by >=1 writing commit",
+	Nontrivial: func(w *World) bool { return w.Labels["hop_multi_version"] && w.Labels["commit_after_hop"] },
+	Known:      knownCommon,
+	After: func(w *World, op Op) *Violation {
+		if op.Kind == "hop" {
+			vs := w.Vers[op.N]
+			seen := map[int64]bool{}
+			n := 0
+			rpost(vs.Root, func(x *RNode) { seen[x.Version] = true; n++ })
+			if n >= 3 && len(seen) >= 2 {
+				w.Labels["hop_multi_version"] = true
+			}
+			if vs.Root == nil {
+				w.Labels["hop_empty"] = true
+			} else if vs.Root.leaf() {
+				w.Labels["hop_single_leaf"] = true
+			}
+			if vs.Root != nil && vs.Root.Version != op.N {
+				w.Labels["hop_inherited_root"] = true
+			}
+			w.Cnt["hops"]++
+			w.Cnt["writing_at_hop"] = w.Cnt["writing_commits"]
+		}
+		if op.Kind == "save" && w.Labels["hop"] && w.Cnt["writing_commits"] > w.Cnt["writing_at_hop"] {
+			w.Labels["commit_after_hop"] = true
+		}
+		return nil
+	},
+}
+
+func TestC10(t *testing.T) { runWorldSpec(t, withLevel(specC10)) }
+
 func mergeW(a, b map[string]int) map[string]int {
 	m := map[string]int{}
 	for k, v := range a {
@@ -353,7 +392,7 @@ func withLevel(s *worldSpec) *worldSpec {
 	return &c
 }
 
-var allSpecs = []*worldSpec{specC01, specC02, specC03, specC04, specC07, specC12, specC13, specC14, specC08, specC15}
+var allSpecs = []*worldSpec{specC01, specC02, specC03, specC04, specC07, specC12, specC13, specC14, specC08, specC15, specC10}
 
 func registerAllSpecs() {
 	for _, s := range allSpecs {
